@@ -1,7 +1,6 @@
 package statex
 
 import (
-	"time"
 	"context"
 	"errors"
 	"fmt"
@@ -154,7 +153,7 @@ func runC04(c c04Case) (string, string, c04Stats) {
 		}
 	}
 	ts := tstate.New(4)
-	under := base.clone() // values visible at block level (parent overlaid with the published diff)
+	under := base.clone()      // values visible at block level (parent overlaid with the published diff)
 	blk := map[string]string{} // model of the published diff: key -> "S<value>" | "N" (deleted)
 	if len(c.Pending) > 0 {
 		pre := ts.NewView(state.CompletePermissions, bs, 4)
@@ -520,8 +519,11 @@ func c04Nontrivial(c c04Case, st c04Stats) bool {
 
 func TestC04(t *testing.T) {
 	r := kit.Start(t, "C04", "exploration")
-	r.Rule("cases = (base values, block-level pending changes, 1..3 consecutive views each a sequence of put/del/rollback-to-earlier-op-index, then commit); every read of every key after every step, OpIndex after rollback, PendingChanges and the exact set published by Commit are compared with a plain map + snapshot model. A case is non-trivial when a view re-creates a deleted key, deletes a key it wrote, or rolls back; distinct = distinct (setup, op sequence).")
-	r.Assume("tstate is driven single-threaded per view as chain/transaction.go does", "values are single-chunk; chunk accounting is judged by C40/C12")
+	r.Rule("cases = (parent-state values, block-level pending changes, 1..3 consecutive views over one TState, each a sequence of put/del/get/rollback-to-earlier-op-index/commit, finally committed or dropped). Compared with a plain map + per-op-index snapshot model of the view and a map model of the published block diff: every read of every key after every step, OpIndex after rollback, PendingChanges, the exact set (keys, values, deletes) published by each Commit, and - after EVERY op, also on a view that keeps being used after its own Commit - that ChangedKeys()/PendingChanges() of the TState and the reads of a fresh view still equal what was published at the last Commit (nothing uncommitted leaks, a rollback never un-publishes). Ops may run while the parent state.Immutable fails its 1st/2nd/every GetValue with a non-not-found error, and on views with restricted per-key permissions: an op that returns an error must leave OpIndex, every visible value and the later published diff as if it had not been issued. Phases: (1) all single-key put/del/rollback histories up to length L over every base/pending setup; (1b) all single-key histories up to length L2 over put/del/commit/faulted put,del,get/rollback that continue after a commit or contain a faulted op; (1c) all triples of 1..2-op views over one key (first committer into an empty TState vs later ones); (2) random multi-key multi-view put/del/rollback histories; (3) random histories with mid-view commits, dropped views, faults and restricted scopes; (4) concurrent commits. A case is non-trivial when a view re-creates a deleted key, deletes a key it wrote, rolls back, is used after its own Commit, or has an op that failed; distinct = distinct (setup, scopes, op sequence).")
+	r.Assume("tstate is driven single-threaded per view as chain/transaction.go does", "values are single-chunk; chunk accounting is judged by C40/C12",
+		"after a view is rolled back to a checkpoint taken BEFORE its own latest Commit the statement does not say what the view shows (the block state under it has moved on); from then on only the block-level state is judged and that view is dropped without a further Commit",
+		"whether an op on a restricted view should be refused is C03's concern; here a refusal (ErrInvalidKeyOrPermission on a key without full permission) is only required to be a no-op, and keys the view may not read are not read through it",
+		"PendingChanges() of a view is only compared at the view's first Commit (afterwards it may still count entries already published)")
 	var tot c04Stats
 	flush := func() {
 		r.Count("ops_failed_by_injected_parent_fault", tot.faultFailedOps)
@@ -566,7 +568,6 @@ func TestC04(t *testing.T) {
 		}
 	}
 
-	t0 := time.Now(); lap := func(n string) { t.Logf("LAP %s %v", n, time.Since(t0)); t0 = time.Now() }
 	// (1) systematic small scope: one key, every setup, every op sequence up to length L
 	L := r.N(4, 6)
 	setups := []c04Case{}
@@ -608,7 +609,6 @@ func TestC04(t *testing.T) {
 	r.Count("exhaustive_single_key_cases", exhaustive)
 	r.Extra("exhaustive_single_key_max_len", L)
 
-	lap("1")
 	// (1b) systematic small scope, one key, every setup: histories that keep using the view after a
 	// Commit of it and/or contain ops during which the parent state fails its 1st / 2nd / every read
 	L2 := r.N(3, 4)
@@ -643,7 +643,6 @@ func TestC04(t *testing.T) {
 	r.Count("exhaustive_post_commit_and_fault_cases", exhaustive)
 	r.Extra("exhaustive_post_commit_and_fault_max_len", L2)
 
-	lap("1b")
 	// (1c) systematic small scope, one key present or absent in the parent, three consecutive views
 	// of 1..2 ops each over one TState (first committer into an empty block state vs later ones)
 	exhaustive = 0
@@ -671,10 +670,9 @@ func TestC04(t *testing.T) {
 	}
 	r.Count("exhaustive_three_view_cases", exhaustive)
 
-	lap("1c")
 	// (2) random multi-key, multi-view histories
 	rng := r.Rand("random")
-	n := r.N(60000, 600000)
+	n := r.N(60000, 500000)
 	for i := 0; i < n && r.Violations() < 20; i++ {
 		c := c04Case{Base: map[string]string{}, Pending: map[string]string{}}
 		for j := range c04Keys {
@@ -711,11 +709,10 @@ func TestC04(t *testing.T) {
 		}
 		judge(c)
 	}
-	lap("2")
 	// (3) random multi-key, multi-view histories with mid-view commits, views dropped without commit,
 	// parent-state faults during ops and views with restricted per-key permissions
 	rng = r.Rand("random-ext")
-	n = r.N(40000, 400000)
+	n = r.N(25000, 350000)
 	permChoices := []state.Permissions{state.All, state.All, state.Write, state.Allocate, state.Read, state.None}
 	for i := 0; i < n && r.Violations() < 20; i++ {
 		c := c04Case{Base: map[string]string{}, Pending: map[string]string{}}
@@ -773,9 +770,7 @@ func TestC04(t *testing.T) {
 		}
 		judge(c)
 	}
-	lap("3")
 	c04ConcurrentCommits(r)
-	lap("conc")
 	flush()
 	r.Finish(1000)
 }
